@@ -1409,6 +1409,7 @@ func testH2(t *testing.T, prop string) {
 		s.Add(explore.Scenario{Name: "frame-size-quick", Remote: true, Tiers: []string{"quick"}, Run: runBubble(t, func(x *explore.X) { frameSizeScenario(x, 3) })})
 		s.Add(explore.Scenario{Name: "frame-size-thorough", Remote: true, Tiers: []string{"thorough"}, Run: runBubble(t, func(x *explore.X) { frameSizeScenario(x, 4) })})
 		s.Add(explore.Scenario{Name: "header-block-at-frame-size-limit", Remote: true, Run: runBubble(t, headerBoundary)})
+		s.Add(explore.Scenario{Name: "flow-thorough-one-step-less", Remote: true, Tiers: []string{"thorough"}, Run: runBubble(t, func(x *explore.X) { flowScenario(x, th-1) })})
 		s.Add(explore.Scenario{Name: "flow-thorough", Remote: true, Tiers: []string{"thorough"}, Run: runBubble(t, func(x *explore.X) { flowScenario(x, th) })})
 	} else {
 		s.Add(explore.Scenario{Name: "relay-interleavings", Remote: true, MaxDev: map[string]int{"quick": 1, "thorough": 2}, Run: func(x *explore.X) { schedScenario(t, x) }})
@@ -1423,6 +1424,7 @@ func testH2(t *testing.T, prop string) {
 		s.Add(explore.Scenario{Name: "header-block-at-frame-size-limit", Remote: true, Run: runBubble(t, headerBoundary)})
 		s.Add(explore.Scenario{Name: "stalled-receiver-quick", Remote: true, Tiers: []string{"quick"}, Run: runBubble(t, func(x *explore.X) { stalledScenario(x, 3) })})
 		s.Add(explore.Scenario{Name: "stalled-receiver-thorough", Remote: true, Tiers: []string{"thorough"}, Run: runBubble(t, func(x *explore.X) { stalledScenario(x, 4) })})
+		s.Add(explore.Scenario{Name: "flow-thorough-one-step-less", Remote: true, Tiers: []string{"thorough"}, Run: runBubble(t, func(x *explore.X) { flowScenario(x, th-1) })})
 		s.Add(explore.Scenario{Name: "flow-thorough", Remote: true, Tiers: []string{"thorough"}, Run: runBubble(t, func(x *explore.X) { flowScenario(x, th) })})
 	}
 	s.Main()
